@@ -258,6 +258,23 @@ def _exec_history(case):
                     out.fail(f"{ttag}/resave-differs", f"{k} differs in the re-saved state_dict ({_short(v)} -> {_short(v3)})")
         if out.failures:
             return out
+        if target != "same-assign":
+            # the state_dict still belongs to the caller: what happens to the loaded model afterwards (an optimizer step, another
+            # load) must not reach into it -- a second model built from the same dict is the saved model again
+            keep = {k: v.clone() for k, v in given.items() if type(v) is torch.Tensor}
+            touched = []
+            with torch.no_grad():
+                for n, t in list(tgt.named_parameters()) + list(tgt.named_buffers()):
+                    if type(t.data) is torch.Tensor and t.dtype.is_floating_point and t.numel() and not t.is_inference():
+                        touched.append((t, t.detach().clone()))
+                        t.mul_(2.0).add_(1.0)
+            bad = [k for k, v in keep.items() if not teq(v, given[k])]
+            with torch.no_grad():
+                for t, v in touched:
+                    t.copy_(v)
+            if bad:
+                out.fail(f"load/{target}/model-shares-memory-with-state-dict", f"updating the loaded model in place changed the state_dict it was loaded from: {bad[:3]} ({case['wq']}, act {case['aq']}, {fz})")
+                return out
         current = tgt
     return out
 
